@@ -129,6 +129,16 @@ pub struct RecordSet {
     sorted_key_indices: Option<Vec<(Key, usize)>>,
 }
 
+/// The key carried by a key-field value. Schemas may declare the key field as
+/// `UInt32` or `Int32`; a signed key is looked up by its 32-bit pattern.
+fn key_of(value: &Value) -> Option<Key> {
+    match value {
+        Value::UInt32(key) => Some(*key),
+        Value::Int32(key) => Some(*key as Key),
+        _ => None,
+    }
+}
+
 impl RecordSet {
     /// Create a new record set
     pub(crate) fn new(
@@ -140,8 +150,8 @@ impl RecordSet {
             if let Some(key_field_index) = schema.key_field_index {
                 let mut map = HashMap::with_capacity(records.len());
                 for (i, record) in records.iter().enumerate() {
-                    if let Some(Value::UInt32(key)) = record.get_value(key_field_index) {
-                        map.insert(*key, i);
+                    if let Some(key) = record.get_value(key_field_index).and_then(key_of) {
+                        map.insert(key, i);
                     }
                 }
                 Some(map)
@@ -232,11 +242,10 @@ impl RecordSet {
             .iter()
             .enumerate()
             .filter_map(|(i, record)| {
-                if let Some(Value::UInt32(key)) = record.get_value(key_field_index) {
-                    Some((*key, i))
-                } else {
-                    None
-                }
+                record
+                    .get_value(key_field_index)
+                    .and_then(key_of)
+                    .map(|key| (key, i))
             })
             .collect();
 
